@@ -99,4 +99,17 @@ def recompile (ip : Bool) (ss : List Stmt) : Nat → Slots → Nat → List (Pri
     let r := expandA ip none ss sl c
     recompile ip ss k (r.2.1 ++ r.2.2) r.1.2
 
+mutual
+  /-- no `break` / `continue` under a `while` (`inLoop`: are we inside one?) — the programs the in-place labelling cannot hurt -/
+  def exitFree (inLoop : Bool) : List Stmt → Bool
+    | [] => true
+    | s :: r => exitFreeStmt inLoop s && exitFree inLoop r
+  def exitFreeStmt (inLoop : Bool) : Stmt → Bool
+    | .brk => !inLoop
+    | .cont => !inLoop
+    | .ifS t f => exitFree inLoop t && exitFree inLoop f
+    | .whileS b => exitFree true b
+    | _ => true
+end
+
 end NemoVerif.Expand
